@@ -70,6 +70,7 @@ def _wants_tier(f):
 
 
 _MOD = None
+_BASELINE = {}
 
 
 def _timeouts(tier):
@@ -219,6 +220,11 @@ def _verify_one(args):
             r = discharge(ob, q)
             if r["status"] == "unknown":
                 r = discharge(ob, th)
+            if r["status"] == "unknown" and _BASELINE.get(_base(f"{con.frame_name}::{ob.name}")) == "proved":
+                # an obligation that was proved on the pinned tree and is merely inconclusive now (busy machine?) gets one
+                # generous last attempt before the baseline rule turns it into a VIOLATION
+                r = discharge(ob, 4 * th)
+                r["backend"] = r["backend"] + "+retry"
             rec = dict(name=f"{con.frame_name}::{ob.name}", kind=ob.kind, status=r["status"], backend=r["backend"],
                        time_s=round(r["time_s"], 4), where=ob.where)
             if ob.meta.get("lemma_instances"):
@@ -279,6 +285,9 @@ def _lemma_one(args):
             r = discharge(ob, q)
             if r["status"] == "unknown":
                 r = discharge(ob, th)
+            if r["status"] == "unknown" and _BASELINE.get(_base(f"lemma::{lem.name}::{lab}")) == "proved":
+                r = discharge(ob, 4 * th)
+                r["backend"] = r["backend"] + "+retry"
             rec = dict(name=f"lemma::{lem.name}::{lab}", kind="lemma", status=r["status"], backend=r["backend"],
                        time_s=round(r["time_s"], 4), sample=str(goal)[:300])
             if ob.meta.get("lemma_instances"):
@@ -351,6 +360,8 @@ def run_property(pid, tier="quick", seed=0, update_baseline=False, jobs=None):
     jobs = jobs or min(16, os.cpu_count() or 4)
     known = load_known(pid)
     baseline = load_baseline(pid)
+    global _BASELINE
+    _BASELINE = baseline  # inherited by the forked workers
     contracts = getattr(mod, "CONTRACTS", [])
     lemmas = getattr(mod, "LEMMAS", [])
     bounded = getattr(mod, "BOUNDED", [])
